@@ -3,35 +3,46 @@ from harnesses import *  # noqa
 from ht_c01 import props_for
 
 
-def P2(cap, ln, start, end, fb, r):
-    return "c02::P2 { cap: %s, len: %s, start: %s, end: %s, fb: %d, r: %s }" % (dim(cap), dim(ln), dim(start), dim(end), fb, dim(r))
+def P2(cap, ln, start, end, fb, r, f=None, b=None, form=None):
+    """fb: loop bound for consumption; f/b default to symbolic 0..=fb. form: RangeBounds form (default: all 9
+    forms symbolic when the shape is symbolic, the plain `s..e` form when the range is concrete - a symbolic form
+    would make the concrete bounds non-constant for CBMC's constant propagation)"""
+    f = ("s%d" % fb) if f is None else f
+    b = ("s%d" % fb) if b is None else b
+    if form is None:
+        form = "s8" if (isinstance(start, str) or isinstance(end, str)) else 0
+    return "c02::P2 { cap: %s, len: %s, start: %s, end: %s, fb: %d, f: %s, b: %s, r: %s, form: %s }" % (dim(cap), dim(ln), dim(start), dim(end), fb, dim(f), dim(b), dim(r), dim(form))
 
 
 def tg(x):
     return x if isinstance(x, str) else "f%d" % x
 
 
-def drain(typed, tr, b, elem, L=3, fb=2, tier="quick", cap=None, ln=None, start=None, end=None, also=()):
+def drain(typed, tr, b, elem, L=3, fb=2, tier="quick", cap=None, ln=None, start=None, end=None, f=None, bk_=None, also=()):
     cap = L if cap is None else cap
     ln = "s%d" % L if ln is None else ln
     start = "s%d" % L if start is None else start
     end = "s%d" % L if end is None else end
-    name = "c02_drain_%s__%s_%s_%s__c%s_l%s_s%s_e%s_fb%d" % ("typed" if typed else "erased", tr, b, elem, tg(cap), tg(ln), tg(start), tg(end), fb)
-    call = "c02::drain_h::<%s, %s, %s>(%s, %s)" % (TR[tr], bk(b, elem, cap), elem, P2(cap, ln, start, end, fb, 0), "true" if typed else "false")
+    f = ("s%d" % fb) if f is None else f
+    bb = ("s%d" % fb) if bk_ is None else bk_
+    name = "c02_drain_%s__%s_%s_%s__c%s_l%s_s%s_e%s_f%s_b%s" % ("typed" if typed else "erased", tr, b, elem, tg(cap), tg(ln), tg(start), tg(end), tg(f), tg(bb))
+    call = "c02::drain_h::<%s, %s, %s>(%s, %s)" % (TR[tr], bk(b, elem, cap), elem, P2(cap, ln, start, end, max(fb, dmax(f), dmax(bb)), 0, f, bb), "true" if typed else "false")
     H(name, call, props_for(b, base=("C02",), also=also), tier=tier, unwind=unwind_for(elem, L + 1, not typed),
-      dims=dict(cap=cap, len=ln, start=start, end=end, front_back_max=fb, elem=elem, backend=b, traits=tr, range_forms="all 9 (Bound,Bound) forms symbolic", shape_symbolic=isinstance(ln, str)),
+      dims=dict(cap=cap, len=ln, start=start, end=end, front=f, back=bb, elem=elem, backend=b, traits=tr, range_forms="all 9 (Bound,Bound) forms symbolic", shape_symbolic=isinstance(ln, str)),
       role="c02_drain_%s" % ("typed" if typed else "erased"))
 
 
-def splice(typed, kind, tr, b, elem, L=3, fb=1, r=1, tier="quick", cap=None, ln=None, start=None, end=None, also=()):
+def splice(typed, kind, tr, b, elem, L=3, fb=1, r=1, tier="quick", cap=None, ln=None, start=None, end=None, f=None, bk_=None, also=()):
     capv = (L + dmax(r)) if cap is None else cap
     ln = "s%d" % L if ln is None else ln
     start = "s%d" % L if start is None else start
     end = "s%d" % L if end is None else end
-    name = "c02_splice_%s_%s__%s_%s_%s__c%s_l%s_s%s_e%s_fb%d_r%s" % ("typed" if typed else "erased", kind.lower(), tr, b, elem, tg(capv), tg(ln), tg(start), tg(end), fb, tg(r))
-    call = "c02::splice_h::<%s, %s, %s>(%s, %s, c02::RepKind::%s)" % (TR[tr], bk(b, elem, capv), elem, P2(capv, ln, start, end, fb, r), "true" if typed else "false", kind)
-    H(name, call, props_for(b, base=("C02",), also=also), tier=tier, unwind=unwind_for(elem, capv + 1, not typed),
-      dims=dict(cap=capv, len=ln, start=start, end=end, front_back_max=fb, replacement=r, rep_kind=kind, elem=elem, backend=b, traits=tr, shape_symbolic=isinstance(ln, str)),
+    f = ("s%d" % fb) if f is None else f
+    bb = ("s%d" % fb) if bk_ is None else bk_
+    name = "c02_splice_%s_%s__%s_%s_%s__c%s_l%s_s%s_e%s_f%s_b%s_r%s" % ("typed" if typed else "erased", kind.lower(), tr, b, elem, tg(capv), tg(ln), tg(start), tg(end), tg(f), tg(bb), tg(r))
+    call = "c02::splice_h::<%s, %s, %s>(%s, %s, c02::RepKind::%s)" % (TR[tr], bk(b, elem, capv), elem, P2(capv, ln, start, end, max(fb, dmax(f), dmax(bb)), r, f, bb), "true" if typed else "false", kind)
+    H(name, call, props_for(b, base=("C02",), also=also), tier=tier, unwind=unwind_for(elem, max(capv, L + dmax(r)) + 1, not typed),
+      dims=dict(cap=capv, len=ln, start=start, end=end, front=f, back=bb, replacement=r, rep_kind=kind, elem=elem, backend=b, traits=tr, shape_symbolic=isinstance(ln, str)),
       role="c02_splice_%s_%s" % ("typed" if typed else "erased", kind.lower()))
 
 
@@ -42,49 +53,75 @@ def badrange(bad, op, tr, b, elem, L=3, tier="quick", also=()):
       dims=dict(L=L, bad=bad, op=op, elem=elem, backend=b, traits=tr, shape_symbolic=True), role="c02_badrange_%s" % bad.lower())
 
 
+def shapes(L):
+    for ln in range(L + 1):
+        for s in range(ln + 1):
+            for e in range(s, ln + 1):
+                yield ln, s, e
+
+
 BADS = ["StartAfterEnd", "EndAfterLen", "InclusiveMax", "ExcludedMaxStart"]
 ROPS = ["Drain", "Splice", "TDrain", "TSplice"]
 
 
 def define():
+    # drain: symbolic shape (len, range, range form, front/back consumption) on every backend kind
     drain(False, "none", "heap", "W8D")
     drain(False, "none", "stack", "B3D")
     drain(True, "none", "heap", "B3D")
     drain(False, "none", "heap", "Z0D", fb=1)
-    drain(False, "none", "reloc", "W8D", fb=1)
-    for r in (0, 1, 2):
-        splice(False, "Raw" if r != 1 else "Wrapper", "none", "heap" if r != 2 else "stack", "W8D" if r != 0 else "B3D", r=r)
+    drain(False, "none", "reloc", "B3D", fb=1)
+    # splice, symbolic shape: fixed-capacity storage (no reallocation inside the query)
+    splice(False, "Raw", "none", "stack", "B3D", r=0)
+    splice(False, "Wrapper", "none", "stack", "B3D", r=1)
+    splice(False, "Raw", "none", "stack", "W8D", r=2, tier="rot2")
+    splice(False, "Raw", "none", "stackn", "B3D", r=2)
     splice(True, "Wrapper", "none", "stack", "B3D", r=1)
-    splice(True, "Wrapper", "none", "heap", "W8D", r=2, fb=0)
-    # result exactly fills a fixed capacity / heap must grow: concrete range, symbolic replacement length
-    splice(False, "Raw", "none", "stack", "W8D", L=3, cap=3, ln=3, start=1, end=2, r="s1", fb=0)
-    splice(False, "Wrapper", "none", "heap", "B3D", L=3, cap=3, ln=3, start=1, end=2, r="s2", fb=0)
-    splice(False, "Raw", "none", "reloc", "B3D", L=3, cap=3, ln=3, start=0, end=1, r="s2", fb=1)
+    splice(True, "Wrapper", "none", "stack", "H2", r=2, fb=0)
+    # splice on resizable storage: concrete (len, range, r) per query - payloads, range form and consumption symbolic.
+    # cap == len, so every r > end-start reallocates. Seeded rotation in quick, all shapes in thorough.
+    n = 0
+    for (ln, s, e) in shapes(3):
+        for r in (0, 1, 2):
+            n += 1
+            b = ("heap", "reloc")[n % 2]
+            kind = ("Raw", "Wrapper")[(n // 2) % 2]
+            quick = (ln, s, e, r) in ((3, 1, 2, 2), (2, 0, 2, 1), (3, 3, 3, 1), (0, 0, 0, 2))
+            splice(False, kind, "none", b, "B3D", L=3, cap=ln, ln=ln, start=s, end=e, r=r, fb=1, tier="quick" if quick else "rot12")
+    splice(True, "Wrapper", "none", "heap", "W8D", L=3, cap=3, ln=3, start=1, end=2, r=2, fb=1)
+    # result exactly fills a fixed capacity (symbolic replacement length)
+    splice(False, "Raw", "none", "stack", "B3D", L=3, cap=3, ln=3, start=1, end=2, r="s1", fb=0)
     for i, bad in enumerate(BADS):
-        badrange(bad, ROPS[i], "none", "heap" if i % 2 == 0 else "stack", "W8D")
+        badrange(bad, ROPS[i], "none", "heap" if i % 2 == 0 else "stack", "B3D")
         for j, op in enumerate(ROPS):
             if j != i:
                 badrange(bad, op, "none", "heap", "B3D", tier="rot4")
-    # class M/L concrete shapes (rotation)
+    # class M/L concrete shapes and consumption (rotation)
     for elem in ("T12", "Q16", "D24D", "A32", "A64", "L160D"):
-        for (ln, s, e) in ((3, 0, 1), (3, 1, 2), (3, 1, 3), (3, 0, 3)):
-            drain(False, "none", "heap", elem, L=3, cap=3, ln=ln, start=s, end=e, fb=1, tier="rot8")
-            splice(False, "Raw", "none", "stack", elem, L=3, cap=4, ln=ln, start=s, end=e, fb=1, r=1, tier="rot8")
+        for (ln, s, e, f, b) in ((3, 0, 1, 1, 0), (3, 1, 2, 0, 1), (3, 1, 3, 1, 1), (3, 0, 3, 0, 0), (2, 0, 2, 0, 1)):
+            drain(False, "none", "heap", elem, L=3, cap=3, ln=ln, start=s, end=e, f=f, bk_=b, tier="rot8")
+            splice(False, "Raw", "none", "stack" if ELEMS[elem][1] <= 8 else "reloc", elem, L=3, cap=4, ln=ln, start=s, end=e, f=f, bk_=b, r=1, tier="rot8")
+            splice(False, "Raw", "none", "heap", elem, L=3, cap=3, ln=ln, start=s, end=e, f=f, bk_=b, r=2, tier="rot16")
     # thorough
     for elem in ("B1", "H2", "B3D", "W8", "W8D"):
         for b in ("heap", "stack", "reloc", "stackn"):
-            drain(False, "none", b, elem, L=4, fb=2, tier="thorough")
-            drain(True, "none", b, elem, L=4, fb=2, tier="thorough")
+            drain(False, "none", b, elem, L=4 if ELEMS[elem][0] <= 3 else 3, fb=2, tier="thorough")
+            drain(True, "none", b, elem, L=4 if ELEMS[elem][0] <= 3 else 3, fb=2, tier="thorough")
+        for b in ("stack", "stackn"):
             for r in (0, 1, 2, 3):
                 splice(False, "Raw", "none", b, elem, L=3, r=r, fb=1, tier="thorough")
                 splice(False, "Wrapper", "none", b, elem, L=3, r=r, fb=1, tier="thorough")
                 splice(True, "Wrapper", "none", b, elem, L=3, r=r, fb=1, tier="thorough")
+        if elem in ("B3D", "W8D"):
+            for (ln, s, e) in shapes(3):
+                for r in (0, 1, 2, 3):
+                    splice(False, "Raw", "none", "heap", elem, L=3, cap=ln, ln=ln, start=s, end=e, r=r, fb=1, tier="thorough")
+                    splice(True, "Wrapper", "none", "reloc", elem, L=3, cap=ln, ln=ln, start=s, end=e, r=r, fb=1, tier="thorough")
     for tr in ("clone", "send", "call"):
-        drain(False, tr, "heap", "W8D", L=3, tier="thorough")
-        splice(False, "Raw", tr, "heap", "W8D", L=3, r=2, tier="thorough")
+        drain(False, tr, "heap", "B3D", L=3, tier="thorough")
+        splice(False, "Raw", tr, "stack", "B3D", L=3, r=2, tier="thorough")
     for elem in ("T12", "D24D"):
-        drain(False, "none", "heap", elem, L=3, fb=1, tier="thorough")
-        splice(False, "Raw", "none", "heap", elem, L=3, r=1, fb=1, tier="thorough")
+        drain(False, "none", "stack", elem, L=3, fb=1, tier="thorough")
     for bad in BADS:
         for op in ROPS:
             for b in ("stack", "reloc"):
